@@ -7,7 +7,7 @@ ASSUME TLCSet(1, {})
 LastStep == IF sched = <<>> THEN <<>> ELSE
             LET s == sched[Len(sched)] IN
             <<s.a, IF "msg" \in DOMAIN s THEN <<s.msg.kind, s.msg.from, s.msg.v, s.msg.premium, s.msg.outs, s.msg.inv_msat, s.msg.inv_hash, s.msg.inv_cltv,
-                                                s.msg.scid, s.msg.ver, s.msg.limit, s.msg.pubkey, s.msg.asset, s.msg.amt, s.msg.sid = "new">> ELSE <<>>,
+                                                s.msg.scid, s.msg.ver, s.msg.limit, s.msg.pubkey, s.msg.asset, s.msg.amt, s.msg.sid = "new", s.msg.raw, s.msg.raw_type>> ELSE <<>>,
               IF "faults" \in DOMAIN s THEN s.faults ELSE <<>>, IF "crash" \in DOMAIN s THEN s.crash ELSE <<>>,
               IF "n" \in DOMAIN s THEN s.n ELSE 0, IF "kind" \in DOMAIN s THEN s.kind ELSE "">>
 Key == <<cf.name, LastStep, nd.up, {<<nd.disk[s].role, nd.disk[s].prev, nd.disk[s].cur>> : s \in DOMAIN nd.disk}, {nd.mem[s].cur : s \in nd.reg}, viol>>
